@@ -140,3 +140,77 @@ pub fn ref_view(bytes: &[u8], nwk: &[u8; 16], app: &[u8; 16], root: &[u8; 16], m
     }
     "g".into()
 }
+
+/// Independent encoder of a data frame (LoRaWAN 1.0.x §4): the network server's side of the
+/// harness. `None` for descriptions the specification does not allow (FOpts over 15 octets,
+/// FOpts together with FPort 0) or that exceed 300 octets.
+#[allow(clippy::too_many_arguments)]
+pub fn build_data(mtype: u8, devaddr: u32, fctrl_hi: u8, fcnt: u32, fopts: &[u8], fport: Option<u8>, payload: &[u8], nwk: &[u8; 16], app: &[u8; 16]) -> Option<Vec<u8>> {
+    if fopts.len() > 15 || (fport == Some(0) && !fopts.is_empty()) {
+        return None;
+    }
+    let dir = if mtype == 3 || mtype == 5 { 1u8 } else { 0u8 };
+    let addr = devaddr.to_le_bytes();
+    let mut out = vec![mtype << 5];
+    out.extend_from_slice(&addr);
+    out.push((fctrl_hi & 0xf0) | fopts.len() as u8);
+    out.extend_from_slice(&(fcnt as u16).to_le_bytes());
+    out.extend_from_slice(fopts);
+    if let Some(p) = fport {
+        out.push(p);
+        let key = if p == 0 { nwk } else { app };
+        out.extend_from_slice(&crypt_payload(key, payload, dir, &addr, fcnt));
+    }
+    let mic = data_mic(nwk, &out, dir, &addr, fcnt);
+    out.extend_from_slice(&mic);
+    if out.len() > 300 {
+        return None;
+    }
+    Some(out)
+}
+
+/// Network-side decoding of an uplink the device produced, judged at the full 32-bit counter the
+/// network expects (format of `mac::show_uplink`).
+pub fn ref_uplink(frame: &[u8], nwk: &[u8; 16], app: &[u8; 16], fcnt32: u32) -> String {
+    if frame.len() < 12 || frame[0] & 3 != 0 || !(2..=5).contains(&(frame[0] >> 5)) {
+        return "up=UNPARSEABLE".into();
+    }
+    let mtype = frame[0] >> 5;
+    let foptslen = (frame[5] & 0x0f) as usize;
+    let mic_at = frame.len() - 4;
+    if 8 + foptslen > mic_at {
+        return "up=UNPARSEABLE".into();
+    }
+    let dir = if mtype == 3 || mtype == 5 { 1u8 } else { 0u8 };
+    let addr = &frame[1..5];
+    if data_mic(nwk, &frame[..mic_at], dir, addr, fcnt32)[..] != frame[mic_at..] {
+        return "up=BADMIC".into();
+    }
+    let wire = u16::from_le_bytes([frame[6], frame[7]]) as u32;
+    if wire != (fcnt32 & 0xffff) {
+        return "up=FCNT16MISMATCH".into();
+    }
+    let fctrl = frame[5];
+    let (fport, payload) = if 8 + foptslen < mic_at {
+        let p = frame[8 + foptslen];
+        let key = if p == 0 { nwk } else { app };
+        (Some(p), crypt_payload(key, &frame[9 + foptslen..mic_at], dir, addr, fcnt32))
+    } else {
+        (None, vec![])
+    };
+    format!(
+        "up={},{},{},{},{},{},{},{},{}",
+        b2s(mtype == 4 || mtype == 5),
+        u32::from_le_bytes([addr[0], addr[1], addr[2], addr[3]]),
+        b2s(fctrl & 0x80 != 0),
+        b2s(fctrl & 0x40 != 0),
+        b2s(fctrl & 0x20 != 0),
+        fcnt32,
+        hex(&frame[8..8 + foptslen]),
+        match fport {
+            Some(p) => p.to_string(),
+            None => "-".into(),
+        },
+        hex(&payload)
+    )
+}
